@@ -69,6 +69,7 @@ structure Sym where
   type : String
   order : Int
   dims : List Int
+  deriving DecidableEq, Repr
 
 /-- `if "state" not in s.prefixes: s.prefixes.append("state")` for the marked symbols. -/
 def annotateSym (marked : List String) (s : Sym) : Sym :=
